@@ -95,7 +95,8 @@ def cases(tier):
     idx = 0
     for k in range(1, 7):
         for sub in itertools.combinations(SOURCES, k):
-            shapes = ('single', 'last', 'first', 'both', 'repeat') \
+            shapes = ('single', 'last', 'first', 'both', 'repeat', 'falsy',
+                      'falsy-last') \
                 if 'client' in sub else ('none',)
             for shape in shapes:
                 for kind in ('plain', 'callable', 'template'):
@@ -170,8 +171,10 @@ def build_src(case):
         parts['kw']['n'] = spec['kw']
     if 'client' in spec:
         first = value_spec(kind, 'S-client1')
-        if shape == 'single':
+        if shape in ('single', 'falsy'):
             parts['clients'] = [{'n': spec['client']}]
+        elif shape == 'falsy-last':
+            parts['clients'] = [{'zz': ['lit', 1]}, {'n': spec['client']}]
         elif shape == 'last':
             parts['clients'] = [{'zz': ['lit', 1]}, {'n': spec['client']}]
         elif shape == 'first':
@@ -182,6 +185,8 @@ def build_src(case):
             parts['repeat'] = {}
         else:
             parts['clients'] = [{'n': first}, {'n': spec['client']}]
+    if shape.startswith('falsy'):
+        parts['client_kind'] = 'fobj'
     nodes = [T('[')] + lookup_nodes(case['form']) + [T(']')]
     return nodes, parts
 
@@ -190,7 +195,8 @@ def observe_src_impl(nodes, parts, syntax, single_client):
     w = World('impl', syntax)
     b = {k: ({a: w.build(v) for a, v in parts[k].items()}
              if isinstance(parts[k], dict) else None) for k in parts}
-    clients = [w.build(['obj', c]) for c in parts['clients']]
+    clients = [w.build([parts.get('client_kind', 'obj'), c])
+               for c in parts['clients']]
     if 'repeat' in parts:
         clients = [clients[0], clients[1], clients[0]]
     cls = ast.template_class(syntax)
@@ -218,7 +224,8 @@ def observe_src_ref(nodes, parts):
     w = World('ref')
     b = {k: ({a: w.build(v) for a, v in parts[k].items()}
              if isinstance(parts[k], dict) else None) for k in parts}
-    clients = [w.build(['obj', c]) for c in parts['clients']]
+    clients = [w.build([parts.get('client_kind', 'obj'), c])
+               for c in parts['clients']]
     if 'repeat' in parts:
         clients = [clients[0], clients[1], clients[0]]
     interp = refsem.Interp()
@@ -353,7 +360,7 @@ def run(case):
     res = Res()
     if case['fam'] == 'src':
         nodes, parts = build_src(case)
-        single = case['shape'] == 'single'
+        single = case['shape'] in ('single', 'falsy')
         io, ilog, src = observe_src_impl(nodes, parts, case['syntax'], single)
         ro, rlog, unspec = observe_src_ref(nodes, parts)
         n_def = len(case['sources']) + (case['shape'] in ('both', 'repeat'))
